@@ -1,1 +1,51 @@
-fn main() {}
+//! Generates a fixed family of typed clients/servers with the CURRENT anemo-build (path
+//! dependency on /repo), for C17: empty and dotted packages, route names that are prefixes of
+//! each other, the same names in two services, both codecs, raw-bytes handlers.
+use anemo_build::manual::{Builder, Method, Service};
+
+const BIN: &str = "anemo::rpc::codec::BincodeCodec";
+const JSON: &str = "anemo::rpc::codec::JsonCodec";
+
+fn m(name: &str, route: &str, codec: &str, raw: bool) -> Method {
+    Method::builder()
+        .name(name)
+        .route_name(route)
+        .request_type("crate::props::c17::Msg")
+        .response_type("crate::props::c17::Msg")
+        .codec_path(codec)
+        .server_handler_return_raw_bytes(raw)
+        .build()
+}
+
+fn main() {
+    println!("cargo:rerun-if-changed=build.rs");
+    println!("cargo:rerun-if-changed=/repo/crates/anemo-build/src");
+    let out = std::path::PathBuf::from(std::env::var("OUT_DIR").unwrap());
+    // S1: no package
+    let s1 = Service::builder()
+        .name("Echo")
+        .method(m("ping", "Ping", BIN, false))
+        .method(m("ping_pong", "PingPong", BIN, false))
+        .method(m("pin", "Pin", JSON, false))
+        .method(m("raw", "Raw", BIN, true))
+        .build();
+    // S2: same service and route names under a dotted package
+    let s2 = Service::builder()
+        .name("Echo")
+        .package("a.b")
+        .method(m("ping", "Ping", JSON, false))
+        .method(m("ping_pong", "PingPong", BIN, false))
+        .method(m("pin", "Pin", BIN, false))
+        .method(m("raw", "Raw", JSON, true))
+        .build();
+    // S3: single-label package, method names unrelated to route names
+    let s3 = Service::builder()
+        .name("Greeter")
+        .package("example")
+        .method(m("say_hello", "SayHello", BIN, false))
+        .method(m("x", "Ping", BIN, false))
+        .method(m("sayhello", "Say", JSON, false))
+        .method(m("z9", "say_hello", BIN, false))
+        .build();
+    Builder::new().out_dir(&out).compile(&[s1, s2, s3]);
+}
